@@ -71,16 +71,18 @@ _HEADER_ATTRS = {"queryStartPosition", "queryEndPosition", "referenceStartPositi
 _CONTENT_ATTRS = {"segments", "alignedPairs"}
 
 
-def records_frozen(ck, rule, skip_modules=("src.diagnostic.alignment_comparer", "src.compare_alignments")):
+def records_frozen(ck, rule, skip_modules=("src.diagnostic.alignment_comparer", "src.compare_alignments"), content=None, clause=None):
     """A record's header is derived once, in AlignmentResultRow.create, from the pairs it lists. Nothing may change the listed
     content (segments / alignedPairs, the attribute or the list in place) or a header field afterwards: the row objects of the
     first and second pass are written again after a join."""
     import ast
     from ..rules.effects import MUTATORS
     from ..types import _iter_own_nodes
-    ck.clause(rule, "a record is not altered after its header was derived: no store into segments / alignedPairs (attribute, element "
+    ck.clause(rule, clause or "a record is not altered after its header was derived: no store into segments / alignedPairs (attribute, element "
                     "or in-place method) or into a header field outside a constructor")
     p = ck.ctx.p
+    _CONTENT_ATTRS = content or globals()["_CONTENT_ATTRS"]
+    _HEADER_ATTRS = set() if content else globals()["_HEADER_ATTRS"]
     n_fn = 0
     for f in p.nontest_functions():
         if f.is_lambda or not f.module.name.startswith("src.") or f.module.name in skip_modules:
@@ -560,6 +562,34 @@ def fragments_reach_second_pass(ck, rule):
         if n:
             break
     ck.floor(f"{rule} second-pass execute calls", n, 1)
+    # ... and the pass itself (one coordinator serves both passes) hands each molecule to its worker as it received it
+    ex = ctx.p.find_method("_WorkflowCoordinator", "execute")
+    qparam = next((pp.name for pp in ex.call_params() if "query" in pp.name.lower()), None)
+    if qparam is None:
+        raise AnalysisError(f"{ex.where}: query list parameter of execute not found")
+    m = 0
+    for pa in explore(ck, ex, unroll=(0, 1)):
+        if pa.outcome != "return" or pa.value is None:
+            continue
+        for x in T.subterms(pa.value):
+            if x[0] == "call" and x[1].split(".")[0] == "p_tqdm" and len(x[2]) >= 2:
+                m += 1
+                tasks = x[2][1]
+                w = where(ex, pa.node)
+                rebuilt = [y for y in T.subterms(tasks) if (y[0] == "app" and y[1].endswith("OpticalMap.trim")) or
+                           (y[0] == "new" and y[1].endswith(":OpticalMap"))]
+                if rebuilt:
+                    ck.violation(rule, short(ex) + ":molecules-as-given", w,
+                                 "the coordinator re-bases / rebuilds the molecules it is given before it aligns them: harmless for the "
+                                 "first pass (Program trims what it reads: trim is idempotent there), but the second pass runs through "
+                                 "the same method and its fragments lose their label-number offset and the whole-molecule frame - "
+                                 "second-pass and joined records report pairs tens of kb off the seed diagonal",
+                                 found=T.show(rebuilt[0])[:120], required=f"the elements of `{qparam}` themselves")
+                elif T.contains(tasks, V(qparam)):
+                    ck.ok(rule, short(ex) + ":molecules-as-given", w, "each molecule reaches its worker as it was handed in", T.show(tasks)[:160])
+                else:
+                    raise AnalysisError(f"{w}: the task list of the parallel map is not recognised: {T.show(tasks)[:160]}")
+    ck.floor(f"{rule} parallel maps in the coordinator", m, 1)
 
 
 def fragments(ck, rule):
